@@ -42,7 +42,7 @@ def run(tier, replay):
             "fs_model_checks_against_os": n1["Stat"] + n2["Stat"],
             "worlds": n1["Mount"] + n2["Mount"],
             "samples": S.sample_events(trace, 3),
-            "rule": "Gen_Static(c01): all targets of <= %d segments over a 15-token alphabet (.., ., empty, names, secrets, links, %%2e%%2e) on the "
+            "rule": "[trees: directories inside the root named ..data, v1..v2, ..., a.. and climbing skeletons through them] Gen_Static(c01): all targets of <= %d segments over a 15-token alphabet (.., ., empty, names, secrets, links, %%2e%%2e) on the "
                     "8 worlds of depth <= 2, plus climbing skeletons x {9 leads, 5 query/fragment forms, 3 methods, 5 Range forms} on all 12 worlds, "
                     "x {prod, legacy}; plus seeded random worlds; each response judged by C01Violations (secret byte classes, climbing => error)" % k,
         }
